@@ -5,6 +5,7 @@
 // (what `Framed` calls when the socket reports EOF) must not turn a body that is shorter than its
 // framing into a clean end.  See DESIGN.md §3 C17.
 use super::*;
+include!(concat!(env!("VERIF_HARNESS"), "/common/tracing_stub.rs"));
 use core::mem::forget;
 
 /// A payload codec around `payload`.  `config` is never read by `decode`/`decode_eof`; it is a dangling
@@ -112,12 +113,14 @@ fn eof_lemma(f: Framing, n: usize) {
 
 // ---- harness instances (generated): unread byte count concrete, groups of decoder positions in turn
 #[kani::proof]
+#[kani::stub(tracing::callsite::DefaultCallsite::register, stub_tracing_register)]
 #[kani::unwind(8)]
 fn c17_eof_length_and_until_close_b0() {
     eof_lemma(Framing::Length, 0);
     eof_lemma(Framing::UntilClose, 0);
 }
 #[kani::proof]
+#[kani::stub(tracing::callsite::DefaultCallsite::register, stub_tracing_register)]
 #[kani::unwind(8)]
 fn c17_eof_chunked_size_line_b0() {
     eof_lemma(Framing::Chunked(b"", false), 0);
@@ -127,6 +130,7 @@ fn c17_eof_chunked_size_line_b0() {
     eof_lemma(Framing::Chunked(b"1\r", false), 0);
 }
 #[kani::proof]
+#[kani::stub(tracing::callsite::DefaultCallsite::register, stub_tracing_register)]
 #[kani::unwind(8)]
 fn c17_eof_chunked_data_b0() {
     eof_lemma(Framing::Chunked(b"2\r\n", false), 0);
@@ -135,6 +139,7 @@ fn c17_eof_chunked_data_b0() {
     eof_lemma(Framing::Chunked(b"1\r\na\r", false), 0);
 }
 #[kani::proof]
+#[kani::stub(tracing::callsite::DefaultCallsite::register, stub_tracing_register)]
 #[kani::unwind(8)]
 fn c17_eof_chunked_end_b0() {
     eof_lemma(Framing::Chunked(b"1\r\na\r\n", false), 0);
@@ -143,12 +148,14 @@ fn c17_eof_chunked_end_b0() {
     eof_lemma(Framing::Chunked(b"0\r\n\r\n", true), 0);
 }
 #[kani::proof]
+#[kani::stub(tracing::callsite::DefaultCallsite::register, stub_tracing_register)]
 #[kani::unwind(8)]
 fn c17_eof_length_and_until_close_b1() {
     eof_lemma(Framing::Length, 1);
     eof_lemma(Framing::UntilClose, 1);
 }
 #[kani::proof]
+#[kani::stub(tracing::callsite::DefaultCallsite::register, stub_tracing_register)]
 #[kani::unwind(8)]
 fn c17_eof_chunked_size_line_b1() {
     eof_lemma(Framing::Chunked(b"", false), 1);
@@ -158,6 +165,7 @@ fn c17_eof_chunked_size_line_b1() {
     eof_lemma(Framing::Chunked(b"1\r", false), 1);
 }
 #[kani::proof]
+#[kani::stub(tracing::callsite::DefaultCallsite::register, stub_tracing_register)]
 #[kani::unwind(8)]
 fn c17_eof_chunked_data_b1() {
     eof_lemma(Framing::Chunked(b"2\r\n", false), 1);
@@ -166,6 +174,7 @@ fn c17_eof_chunked_data_b1() {
     eof_lemma(Framing::Chunked(b"1\r\na\r", false), 1);
 }
 #[kani::proof]
+#[kani::stub(tracing::callsite::DefaultCallsite::register, stub_tracing_register)]
 #[kani::unwind(8)]
 fn c17_eof_chunked_end_b1() {
     eof_lemma(Framing::Chunked(b"1\r\na\r\n", false), 1);
@@ -174,12 +183,14 @@ fn c17_eof_chunked_end_b1() {
     eof_lemma(Framing::Chunked(b"0\r\n\r\n", true), 1);
 }
 #[kani::proof]
+#[kani::stub(tracing::callsite::DefaultCallsite::register, stub_tracing_register)]
 #[kani::unwind(8)]
 fn c17_eof_length_and_until_close_b2_t() {
     eof_lemma(Framing::Length, 2);
     eof_lemma(Framing::UntilClose, 2);
 }
 #[kani::proof]
+#[kani::stub(tracing::callsite::DefaultCallsite::register, stub_tracing_register)]
 #[kani::unwind(8)]
 fn c17_eof_chunked_size_line_b2_t() {
     eof_lemma(Framing::Chunked(b"", false), 2);
@@ -189,6 +200,7 @@ fn c17_eof_chunked_size_line_b2_t() {
     eof_lemma(Framing::Chunked(b"1\r", false), 2);
 }
 #[kani::proof]
+#[kani::stub(tracing::callsite::DefaultCallsite::register, stub_tracing_register)]
 #[kani::unwind(8)]
 fn c17_eof_chunked_data_b2_t() {
     eof_lemma(Framing::Chunked(b"2\r\n", false), 2);
@@ -197,6 +209,7 @@ fn c17_eof_chunked_data_b2_t() {
     eof_lemma(Framing::Chunked(b"1\r\na\r", false), 2);
 }
 #[kani::proof]
+#[kani::stub(tracing::callsite::DefaultCallsite::register, stub_tracing_register)]
 #[kani::unwind(8)]
 fn c17_eof_chunked_end_b2_t() {
     eof_lemma(Framing::Chunked(b"1\r\na\r\n", false), 2);
